@@ -224,6 +224,7 @@ def pipeline(ctx, quick):
 def run(ctx):
     quick = ctx.tier == "quick"
     ctx.prepare("C02.v")
+    ctx.rule("regenerated from the source on every run (tools/translate_extra.py -> coq/gen/Extra.v; bridged to the model by C02_weights_are_the_sources, C02_weight_tk_is_the_source, C02_enums_are_covered, C02_grouped_format_is_the_source): CountingStrategy members and its four predicates, COUNTING_STRATEGIES, CountingStrategyFlags.__init__, ReadWeightCounter.process_ambiguous / process_inconsistent (floats as exact rationals), GroupedOutputFormat with output_matrix / output_linear; ReadAssignmentType and its is_unique / is_inconsistent / is_unassigned sets come from coq/gen/Tables.v")
     if not check_enums(ctx): return
     strategy_and_weights(ctx)
     unit_ungrouped(ctx, quick)
